@@ -191,7 +191,13 @@ def check(ctx):
             ok = inp is not None and dotted(inp) == "self.inplace"
             ctx.ob("C04.c", f"{s.short}: push receives self.inplace", ok, ast.unparse(pcall), s.where)
         sp = [n for n in g.nodes if n.kind == "stmt" and isinstance(n.ast, ast.Assign) and any(is_self_attr(t, "spike") for t in n.ast.targets)]
-        ok = bool(sp) and ast.unparse(sp[0].ast.value) in ("inputs[0].bool()", "inputs[0].to(dtype=torch.bool)")
+        ok = False
+        if sp:
+            bsp = terms.Builder(P, f, {}, inline_depth=0, erase_casts=False)
+            terms.prime(bsp, f.node, sp[0].ast)
+            got = bsp.t(sp[0].ast.value)
+            ok = any(nf.equal(got, terms.Builder(P, f, {}, inline_depth=0, erase_casts=False).t(ast.parse(w, mode="eval").body))
+                     for w in ("inputs[0].bool()", "inputs[0].to(dtype=torch.bool)"))
         ctx.ob("C04.c", f"{cname}.forward records spikes = inputs[0].bool()", ok, "", f.where)
         rets = [s for s in walk_own(f.node) if isinstance(s, ast.Return)]
         ok = bool(rets) and all(dotted(r.value) == "self.current" for r in rets)
